@@ -119,12 +119,16 @@ func (m *Matcher) PreMatch(s []byte) bool {
 	return true
 }
 
-// MatchRegexAndExpand only matches the given key against the "regex" condition,
+// MatchRegexAndExpand only matches the given key against the "regex" and
+// "notRegex" conditions (the ones PreMatch skips),
 // if it matches then it applies the given template and returns the resulting
 // string as the first return value.
 // The second return value indicates whether the regex matches the given key.
 func (m *Matcher) MatchRegexAndExpand(key, template []byte) (string, bool) {
 	var dst []byte
+	if m.notRegex != nil && m.notRegex.Match(key) {
+		return "", false
+	}
 	matches := m.regex.FindSubmatchIndex(key)
 	if matches == nil {
 		return "", false
